@@ -122,6 +122,14 @@ func writeBundle(b *bundle.Bundle, dest string) (file []byte, count int64, err e
 		d := &byteDest{}
 		count, err = b.WriteTo(d)
 		file = d.buf.Bytes()
+	case "counting":
+		// the destination is itself a CountingWriter that has already passed a preamble on:
+		// the bundle (its byte count, its trailing length) must not depend on what came before it
+		d := &plainDest{}
+		cw := bundle.NewCountingWriter(d)
+		cw.Write([]byte("preface"))
+		count, err = b.WriteTo(cw)
+		file = d.buf.Bytes()[7:]
 	default:
 		d := &plainDest{}
 		count, err = b.WriteTo(d)
@@ -192,7 +200,7 @@ func rdEvent(id string, file []byte, note string) {
 // bundle-replay: stdin = VEC lines of MC_Bundle ({"b":..., "refused":...})
 func bundleReplay(args []string) error {
 	id := 0
-	dests := []string{"plain", "rf", "bytewise"}
+	dests := []string{"plain", "rf", "bytewise", "counting"}
 	return eachLine(func(line []byte) error {
 		var v struct {
 			B brec `json:"b"`
@@ -201,7 +209,7 @@ func bundleReplay(args []string) error {
 			return err
 		}
 		id++
-		wrEvent("mc"+strconv.Itoa(id), &v.B, dests[id%3])
+		wrEvent("mc"+strconv.Itoa(id), &v.B, dests[id%4])
 		return nil
 	})
 }
@@ -235,7 +243,7 @@ func bundleGen(args []string) error {
 	if thorough {
 		n = 1500
 	}
-	dests := []string{"plain", "rf", "bytewise"}
+	dests := []string{"plain", "rf", "bytewise", "counting"}
 	bodyLens := []int{0, 1, 22, 23, 24, 25, 254, 255, 256, 257, 1000}
 	for i := 1; i <= n; i++ {
 		b := emptyB()
@@ -287,7 +295,7 @@ func bundleGen(args []string) error {
 		if r.Intn(4) == 0 {
 			b.HasManifest, b.Manifest = true, ints([]byte("https://a.test/manifest.json"))
 		}
-		wrEvent("g"+strconv.Itoa(i), &b, dests[i%3])
+		wrEvent("g"+strconv.Itoa(i), &b, dests[i%4])
 	}
 	return nil
 }
